@@ -21,6 +21,14 @@ RULE = ("enumerated: for each chosen zone, every gap and overlap of its explicit
         "28 shapes rotated over {start, middle, end-1us, end} of every chosen gap/overlap, so that the LAST construction lands on the transition wall time and its "
         "fold is whatever the earlier steps left on the instance; the value after every step is compared with Model/WallHistory.v (hist dispatch entry, in the model) "
         "and with the documented rules applied step by step by a stdlib-only ledger (the requested fold is carried; a moved value carries 0; an instant carries its own fold). "
+        "substep-* streams: a SECOND construction step that passes only a SUBSET of the fields -- set(**kw) / replace(**kw) with any subset of "
+        "year..microsecond (also only second and/or microsecond, a superset whose extra fields keep their value, one field at a time in both orders) and at(h[, mi[, s[, us]]]) -- "
+        "moving an existing value into, inside and out of a gap / overlap: (a) substep-subminute-*: EVERY explicit transition of the tz data with a wall-clock edge inside a minute "
+        "(437 over the 441 distinct tables, all zones, both tiers), the step changes only the seconds / microseconds of a value in the same minute as that edge and crosses it "
+        "(edge-adjacent and random seconds, microseconds 0 / 999999 / random), 9-12 history shapes (explicit / default fold, via UTC or a naive value, replace(fold=), after in_timezone, "
+        "naive then set(tz=)); (b) substep-fields-*: every chosen transition of the chosen zones, masks rotated over 16 small subsets + random ones, the origin differs from the target "
+        "in exactly those fields and preferably exists; (c) substep-invalid: a subset that is not a date raises ValueError. Expected value = the tz-database resolution of the MERGED "
+        "wall time with the fold the instance carries (same ledger); in the model as WallFields.hstep2 (HSetFields). "
         "non-trivial = distinct (zone, wall, fold, raise, entry) / distinct history.")
 EXHAUSTIVE = {"quick": False, "thorough": True}
 TRUSTED = ["zoneinfo.ZoneInfo (C implementation) and the tzdata tables are the specification side; Spec/Zone.v models zoneinfo's lookups and is validated "
@@ -80,6 +88,7 @@ def cases(tier, seed):
         out.append({"stream": "random-wall", "fn": "create", "args": [name, W, f, r, e]})
         out.append({"stream": "zone-spec-random", "fn": "zone_probe", "args": [name, W // T.MEG - T.EPOCH_S, W // T.MEG]})
     out += history_cases(tier, rnd, zs)
+    out += substep_cases(tier, rnd, zs)
     return out
 
 
@@ -91,6 +100,8 @@ def cases(tier, seed):
 #               ["from_timestamp", n, zone|None]
 #   later steps ["set_tz", zone] ["replace_tzinfo", zone] (pendulum timezone) ["set_tz_std", zone] ["replace_tzinfo_std", zone] (zoneinfo.ZoneInfo) ["set", W] ["replace", W] ["on", W] ["at", W] ["replace_fold", f]
 #               ["in_tz", zone] ["add", h, m, s, us] ["naive()"] ["replace_tzinfo_none"]
+#               ["setf", mask, W] ["replacef", mask, W]  x.set(**kw) / x.replace(**kw) where kw holds ONLY the fields of W whose bit is set in mask
+#               (year 1, month 2, day 4, hour 8, minute 16, second 32, microsecond 64); ["atn", n, W]  x.at(<the first n of hour, minute, second, microsecond of W>)
 # zone: IANA name or a fixed offset in seconds (int); None = the argument is omitted (UTC by default).  W: wall microseconds (the fields).
 FIXED_OFFS = [3600, -18000, 19800, 0, 34200, -12600]
 NO_OFFSET = 10 ** 6        # utcoffset() of a naive value in the canonical results
@@ -165,6 +176,165 @@ def history_cases(tier, rnd, zs):
                     kind, ops = sh[k % len(sh)]
                     k += next(q for q in (7, 11, 13, 17) if len(sh) % q)   # coprime to the number of shapes: every shape meets every probe position
                     out.append({"stream": "history-" + kind, "fn": "hist", "args": [ops]})
+    return out
+
+
+# ----------------------------------------------------------------------------- a second step that passes a SUBSET of the fields
+FIELD_BITS = (1, 2, 4, 8, 16, 32, 64)          # year .. microsecond
+_SMALL_MASKS = (32, 64, 96, 16, 48, 112, 8, 40, 4, 2, 1, 36, 33, 127, 120, 7)
+
+
+def _wall(y, mo, d, h, mi, s, us):
+    try:
+        return T.wall_of(_dt.datetime(y, mo, d, h, mi, s, us))
+    except ValueError:
+        return None
+
+
+def _merge(W, mask, Wn):
+    """The wall value whose fields are those of Wn where mask has the bit and those of W elsewhere; None = not a date."""
+    a, b = T.fields_of(W), T.fields_of(Wn)
+    return _wall(*[b[i] if mask & FIELD_BITS[i] else a[i] for i in range(7)])
+
+
+def _at_wall(W, n, Wn):
+    """x.at(h[, mi[, s[, us]]]): the omitted ones are 0."""
+    t = list(T.fields_of(Wn)[3:3 + n]) + [0] * (4 - n)
+    return W // T.US_DAY * T.US_DAY + ((t[0] * 60 + t[1]) * 60 + t[2]) * T.MEG + t[3]
+
+
+@__import__("functools").lru_cache(maxsize=None)
+def _subminute_transitions():
+    """[(zone, T, o_pre, o_post)] every explicit transition of the tz data with a wall-clock edge inside a minute, one zone name per distinct table."""
+    seen, out = set(), []
+    for name in zones.names():
+        tab = zones.tab(name)
+        key = (tab.init, tuple(tab.trans), tuple(tab.offs))
+        if key in seen:
+            continue
+        seen.add(key)
+        for (tt, a, b) in tab.gaps_and_overlaps(rule_years=()):
+            if ((tt + a) % 60 or (tt + b) % 60) and zones.MIN_T + 9 * 86400 < tt < zones.MAX_T - 9 * 86400:
+                out.append((name, tt, a, b))
+    return out
+
+
+def _origin_for(rnd, Wt, mask, a, b, want_outside=True):
+    """A wall value that differs from Wt in (some of) the fields of mask only, so that passing Wt's fields of mask to set() gives Wt;
+    preferably outside [a, b) (an existing, unambiguous wall time).  None when no such value was found."""
+    ft = T.fields_of(Wt)
+    lim = ((1, 9999), (1, 12), (1, 28), (0, 23), (0, 59), (0, 59), (0, 999999))
+    best = None
+    for _ in range(40):
+        f = list(ft)
+        for i in range(7):
+            if mask & FIELD_BITS[i]:
+                if i == 0:
+                    f[0] = min(9998, max(2, ft[0] + rnd.randrange(-3, 4)))
+                else:
+                    f[i] = rnd.randrange(lim[i][0], lim[i][1] + 1)
+        Wo = _wall(*f)
+        if Wo is None or Wo == Wt or not (T.US_DAY * 9 < Wo < T.MAX_WALL - T.US_DAY * 9):
+            continue
+        if _merge(Wo, mask, Wt) != Wt:
+            continue
+        if (not (a <= Wo < b)) == want_outside:
+            return Wo
+        best = Wo
+    return best
+
+
+def _substep_shapes(Z, Wo, Wt, mask, rnd, zs):
+    """Histories whose LAST step passes only the fields of mask and thereby turns the wall time Wo into Wt."""
+    fe = rnd.randrange(2)
+    op = ["setf", "replacef"][rnd.randrange(2)]
+    ft = T.fields_of(Wt)
+    # a superset of the mask whose extra fields already have the value they are given (passing a field with its current value changes nothing)
+    sup = mask | FIELD_BITS[rnd.randrange(7)] | FIELD_BITS[rnd.randrange(7)]
+    Z2 = zs[rnd.randrange(len(zs))]
+    out = [
+        ("explicit-fold", [["datetime", Z, Wo, fe, 0], ["setf", mask, Wt]]),
+        ("explicit-fold", [["datetime", Z, Wo, fe, 0], ["replacef", mask, Wt]]),
+        ("default-fold", [["datetime", Z, Wo, None, 0], [op, mask, Wt]]),
+        ("superset", [["datetime", Z, Wo, fe, 0], [op, sup, Wt]]),
+        ("via-utc", [["datetime", None, Wo, None, 0], ["set_tz", Z], [op, mask, Wt]]),
+        ("via-utc", [["naive", Wo, None if fe else 0], ["replace_tzinfo", Z], [op, mask, Wt]]),
+        ("replace-fold", [["datetime", Z, Wo, None, 0], ["replace_fold", fe], [op, mask, Wt]]),
+        ("instant", [["datetime", Z2, Wo, fe, 0], ["in_tz", Z], [op, 127, Wo], [op, mask, Wt]]),
+        ("naive", [["naive", Wo, fe], [op, mask, Wt], ["set_tz", Z]]),
+    ]
+    # one field at a time, smallest first / largest first: every intermediate value is a construction of its own
+    bits = [b for b in FIELD_BITS if mask & b]
+    if len(bits) > 1:
+        out.append(("one-by-one", [["datetime", Z, Wo, fe, 0]] + [[op, b, Wt] for b in reversed(bits)]))
+        out.append(("one-by-one", [["datetime", Z, Wo, fe, 0]] + [[op, b, Wt] for b in bits]))
+    # at(h[, mi[, s[, us]]]) when the step only touches the time of day and the omitted fields of the target are 0
+    if not mask & 7:
+        for n in (1, 2, 3, 4):
+            if _at_wall(Wo, n, Wt) == Wt:
+                out.append(("at", [["datetime", Z, Wo, fe, 0], ["atn", n, Wt]]))
+                break
+    return out
+
+
+def substep_cases(tier, rnd, zs):
+    out = []
+    k = 0
+    # (a) every transition of the tz data with an edge inside a minute: the step changes ONLY second and/or microsecond (and minute ..) and
+    #     crosses that edge, in both directions
+    for (name, tt, o_pre, o_post) in _subminute_transitions():
+        a = (tt + T.EPOCH_S + min(o_pre, o_post)) * T.MEG
+        b = (tt + T.EPOCH_S + max(o_pre, o_post)) * T.MEG
+        for e in (a, b):
+            if e // T.MEG % 60 == 0:
+                continue
+            m0 = e - e % (60 * T.MEG)
+            ins = [s for s in range(60) if a <= m0 + s * T.MEG < b]
+            outs = [s for s in range(60) if not a <= m0 + s * T.MEG < b]
+            if not ins or not outs:
+                continue
+            es = e // T.MEG % 60
+            for rep in range(2 if tier == "quick" else 4):
+                near = rep % 2 == 0
+                s_in = (es if e == a else es - 1) if near and (es if e == a else es - 1) in ins else ins[rnd.randrange(len(ins))]
+                s_out = (es - 1 if e == a else es) if near and (es - 1 if e == a else es) in outs else outs[rnd.randrange(len(outs))]
+                us_o = rnd.choice([0, 999999, rnd.randrange(10 ** 6)])
+                us_t = rnd.choice([0, 999999, rnd.randrange(10 ** 6)])
+                W_in, W_out = m0 + s_in * T.MEG, m0 + s_out * T.MEG
+                # into the gap / overlap by the seconds alone, by seconds + microseconds, and out of it again
+                trips = [(W_out + us_o, W_in + us_o, 32), (W_out + us_o, W_in + us_t, 96), (W_in + us_o, W_out + us_o, 32),
+                         (W_in + us_o, W_in + us_t, 64), (W_in + us_o, W_out + us_t, 96)]
+                Wo, Wt, mask = trips[k % len(trips)]
+                if Wo == Wt:
+                    Wo, Wt, mask = trips[0]
+                sh = _substep_shapes(name, Wo, Wt, mask, rnd, zs)
+                for j in range(2):
+                    kind, ops = sh[(k + j * 5) % len(sh)]
+                    out.append({"stream": "substep-subminute-" + kind, "fn": "hist", "args": [ops]})
+                k += 1
+    # (b) the chosen zones, every kind of transition: a random subset of the fields moves an existing value onto the transition wall time
+    for name in zs:
+        trs = T.transition_probes(name, rnd, per_zone=None if tier == "thorough" else 30)
+        for (tt, o_pre, o_post) in trs:
+            pr = T.wall_probes(tt, o_pre, o_post)
+            a, b = pr[2], pr[7]
+            for W in ((pr[2], pr[4], pr[6], pr[7]) if tier == "thorough" else (pr[(2, 4, 6, 7)[k % 4]],)):
+                if not (T.US_DAY * 9 < W < T.MAX_WALL - T.US_DAY * 9):
+                    continue
+                mask = _SMALL_MASKS[k % len(_SMALL_MASKS)] if k % 3 else rnd.randrange(1, 128)
+                Wo = _origin_for(rnd, W, mask, a, b)
+                k += 1
+                if Wo is None:
+                    continue
+                sh = _substep_shapes(name, Wo, W, mask, rnd, zs)
+                kind, ops = sh[k % len(sh)]
+                out.append({"stream": "substep-fields-" + kind, "fn": "hist", "args": [ops]})
+    # (c) a subset that does not form a date has to raise ValueError (and nothing else)
+    for _ in range(20):
+        name = zs[rnd.randrange(len(zs))]
+        y = rnd.randrange(1901, 2100)
+        Wo = _wall(y, 1, 31, 10, 0, 0, 0)
+        out.append({"stream": "substep-invalid", "fn": "hist", "args": [[["datetime", name, Wo, None, 0], ["setf", 2, _wall(y, rnd.choice([2, 4, 6, 9, 11]), 1, 0, 0, 0, 0)]]]})
     return out
 
 
@@ -286,6 +456,12 @@ def _impl_history(pendulum, ops):
             elif k == "replace":
                 y, mo, d, h, mi, s, us = T.fields_of(op[1])
                 x = x.replace(year=y, month=mo, day=d, hour=h, minute=mi, second=s, microsecond=us)
+            elif k in ("setf", "replacef"):
+                fl = T.fields_of(op[2])
+                kw = {n: fl[j] for j, n in enumerate(("year", "month", "day", "hour", "minute", "second", "microsecond")) if op[1] & FIELD_BITS[j]}
+                x = x.set(**kw) if k == "setf" else x.replace(**kw)
+            elif k == "atn":
+                x = x.at(*T.fields_of(op[2])[3:3 + op[1]])
             elif k == "on":
                 x = x.on(*T.fields_of(op[1])[:3])
             elif k == "at":
@@ -395,6 +571,11 @@ def _ref_history_(ops, quirks=()):
             st = _rule(zone, W, f, 0, quirks)
         elif k in ("set", "replace"):
             st = _rule(zone, op[1], f, 0, quirks)
+        elif k in ("setf", "replacef"):
+            Wm = _merge(W, op[1], op[2])
+            st = ("raise", T.EXN["ValueError"]) if Wm is None else _rule(zone, Wm, f, 0, quirks)
+        elif k == "atn":
+            st = _rule(zone, _at_wall(W, op[1], op[2]), f, 0, quirks)
         elif k == "on":
             st = _rule(zone, op[1] // day * day + W % day, f, 0, quirks)
         elif k == "at":
@@ -440,6 +621,11 @@ def _op_text(op):
         return "datetime(%s%s%s%s)" % (w(op[2]), "" if op[1] is None else f", tz={op[1]}", "" if op[3] is None else f", fold={op[3]}", ", raise" if op[4] else "")
     if k in ("parse", "naive", "set", "replace", "on", "at"):
         return f"{k}({w(op[1])}" + (f", {op[2]}" if len(op) > 2 and op[2] is not None else "") + ")"
+    if k in ("setf", "replacef"):
+        fl = T.fields_of(op[2])
+        return ("set(" if k == "setf" else "replace(") + ", ".join(f"{n}={fl[j]}" for j, n in enumerate(("year", "month", "day", "hour", "minute", "second", "microsecond")) if op[1] & FIELD_BITS[j]) + ")"
+    if k == "atn":
+        return "at(" + ", ".join(str(v) for v in T.fields_of(op[2])[3:3 + op[1]]) + ")"
     if k in ("parse_off", "instance"):
         return f"{k}({w(op[1])}, " + ", ".join(str(x) for x in op[2:]) + ")"
     return k + "(" + ", ".join(str(x) for x in op[1:]) + ")"
@@ -458,6 +644,8 @@ def _hist_oracle(ops, r, quirks=()):
             return None if r == [1, st[1], i] else f"history {txt}: step {i} {_op_text(ops[i])} has to raise exception code {st[1]}, got {r}"
         if r[0] == 1 and r[2] == i:
             return f"history {txt}: step {i} {_op_text(ops[i])} raised code {r[1]}, the rules give wall {T.fields_of(st[0])} offset {st[2]}"
+        if r[0] == 1 and i < r[2]:
+            continue        # a later step raised: the result names that step only (the values before it are not reported)
         if i >= len(got):
             return f"history {txt}: no value for step {i} in {r}"
         W, f, o = got[i]
@@ -551,6 +739,10 @@ def _history_call(ops):
             enc += [4] + _enc_zone(zone, span(i))
         elif k in ("set", "replace"):
             enc += [5, op[1]]
+        elif k in ("setf", "replacef"):
+            enc += [13, op[1]] + list(T.fields_of(op[2]))
+        elif k == "atn":
+            enc += [13, 120, 0, 0, 0] + list(T.fields_of(op[2])[3:3 + op[1]]) + [0] * (4 - op[1])
         elif k == "on":
             enc += [6, op[1] // T.US_DAY]
         elif k == "at":
@@ -722,3 +914,13 @@ LEVEL_NOTE = (LEVEL_NOTE + " Model/TzConvert.v is no longer tied to /repo by pin
 # ---- second batch of model = code theorems (appended) ----
 TRUSTED = [t for t in TRUSTED] + ['model_is_code_set / _set_tz / _on / _at / _replace / _replace_tzinfo / _naive: DateTime.set, on, at, replace (both forms: tzinfo not passed / passed) and naive are translated from /repo (Gen/TzGlue.v) and proved EQUAL to the step functions of Model/WallHistory.v (hstep OSetWall, OSetTz, OOn, OAt, OSetFold, OReplaceNoTz, ODropTz): they read the fold of the instance exactly as the history model says; the proof of Timezone.convert = convert_naive is robust to meaning-preserving rewrites of the source (b < a for a > b, reordered conjuncts, swapped conditional branches: checked by refactoring trials)']
 LEVEL_NOTE = LEVEL_NOTE + " " + 'model_is_code_set / _set_tz / _on / _at / _replace / _replace_tzinfo / _naive: DateTime.set, on, at, replace (both forms: tzinfo not passed / passed) and naive are translated from /repo (Gen/TzGlue.v) and proved EQUAL to the step functions of Model/WallHistory.v (hstep OSetWall, OSetTz, OOn, OAt, OSetFold, OReplaceNoTz, ODropTz): they read the fold of the instance exactly as the history model says; the proof of Timezone.convert = convert_naive is robust to meaning-preserving rewrites of the source (b < a for a > b, reordered conjuncts, swapped conditional branches: checked by refactoring trials)' + "."
+
+
+# ---- a second step that passes a subset of the fields (appended) ----
+_SUBSTEP_NEW = ('substep-* streams are inside the Coq model: opcode 13 of the hist dispatch entry = Model/WallFields.v hstep2 (HSetFields oy om od oh omi os ous): the fields that are not passed '
+                'are the fields of the instance (merge_fields, ValueError when they do not form a date), then DateTime.create with the instance\'s fold; model_is_code_set_fields / '
+                '_set_fields_invalid / _replace_fields prove the translated DateTime.set / replace (Gen/TzGlue.v) called with ANY subset of the seven fields equal to it, '
+                'substep_is_construction / substep_second_only_skipped / _repeated restate the construction rules for a step that passes only the second '
+                '(witness on the data: substep_second_only_monrovia_1972); at(h[, mi[, s[, us]]]) is encoded as the subset hour..microsecond with the omitted ones 0 (its defaults: by hand)')
+TRUSTED = [t for t in TRUSTED] + [_SUBSTEP_NEW]
+LEVEL_NOTE = LEVEL_NOTE + " " + _SUBSTEP_NEW + "."
